@@ -38,6 +38,12 @@ def seed():
         return 0
 
 
+def seeds():
+    """seeds for the sampled (native) parts: VERIF_SEED and, in the thorough tier, three more"""
+    s = seed()
+    return [s] if tier() == 'quick' else [s, s + 1, s + 2, s + 3]
+
+
 _scratch_dirs = []
 
 
